@@ -73,6 +73,7 @@ import (
 	txtypes "github.com/cosmos/cosmos-sdk/types/tx"
 	"github.com/cosmos/cosmos-sdk/types/tx/signing"
 	authtx "github.com/cosmos/cosmos-sdk/x/auth/tx"
+	sdkvesting "github.com/cosmos/cosmos-sdk/x/auth/vesting/types"
 	"github.com/cosmos/cosmos-sdk/x/authz"
 	banktypes "github.com/cosmos/cosmos-sdk/x/bank/types"
 	"github.com/ethereum/go-ethereum/common"
@@ -89,6 +90,7 @@ import (
 	haqqtypes "github.com/haqq-network/haqq/types"
 	"github.com/haqq-network/haqq/utils"
 	evmtypes "github.com/haqq-network/haqq/x/evm/types"
+	vestingtypes "github.com/haqq-network/haqq/x/vesting/types"
 )
 
 func init() { register("sigs", sigsDriver) }
@@ -850,7 +852,7 @@ func sgWhy(what string) string {
 
 // ---------------------------------------------------------------- the mutation cases
 type sgInput struct {
-	Kind  string `json:"kind"`  // "mutations" | "blocks" | "multi" | "wrapped"
+	Kind  string `json:"kind"`  // "mutations" | "blocks" | "multi" | "wrapped" | "accountops"
 	Route string `json:"route"` // for mutations
 	Seed  uint64 `json:"seed"`
 	// kinds "multi" and "wrapped": the explicit script (generated from the seed when absent): initial
@@ -866,6 +868,19 @@ type sgInput struct {
 type sgTx struct {
 	Msgs []sgMsgSpec // the Ethereum route: ExtensionOptionsEthereumTx, these MsgEthereumTx and nothing else
 	Wrap *sgWrap     // any other route
+	Op   *sgOp       // an account-type operation
+}
+
+// sgOp: an operation on the TYPE of account Target, performed by a Cosmos transaction (Route, default
+// cosmos-direct) of its own signer: "into-vesting" = MsgConvertIntoVestingAccount funded by account By (a
+// grant of 1000 aISLM, already vested and unlocked) against the EXISTING account Target; "merge-vesting" = the
+// same with merge = true (a further grant for an account that already is a vesting account); "back" =
+// MsgConvertVestingAccount, signed by Target itself.
+type sgOp struct {
+	Kind   string `json:"kind"`
+	By     int    `json:"by"`
+	Target int    `json:"target"`
+	Route  string `json:"route,omitempty"`
 }
 
 // sgWrap: a Cosmos transaction signed (routes cosmos-direct, cosmos-amino, eip712-ext, eip712-key) by
@@ -884,6 +899,9 @@ type sgWrap struct {
 	Depth  int       `json:"depth"`
 	Inner  []sgInner `json:"inner"`
 	Grant  bool      `json:"grant,omitempty"`
+	// Seq: sign over this sequence instead of the signer's current one; the same wrap with the same Seq later in
+	// the script is a re-delivery of the very same signed bytes
+	Seq *uint64 `json:"seq,omitempty"`
 }
 
 // sgInner: a signed Ethereum message (named as in sgMsgSpec) or, when Eth is absent, a plain MsgSend.
@@ -897,6 +915,11 @@ func (t sgTx) MarshalJSON() ([]byte, error) {
 			Wrap *sgWrap `json:"wrap"`
 		}{t.Wrap})
 	}
+	if t.Op != nil {
+		return json.Marshal(struct {
+			Op *sgOp `json:"op"`
+		}{t.Op})
+	}
 	if t.Msgs == nil {
 		return []byte("[]"), nil
 	}
@@ -909,19 +932,23 @@ func (t *sgTx) UnmarshalJSON(b []byte) error {
 	}
 	var o struct {
 		Wrap *sgWrap `json:"wrap"`
+		Op   *sgOp   `json:"op"`
 	}
 	if err := json.Unmarshal(b, &o); err != nil {
 		return err
 	}
-	if o.Wrap == nil {
-		return fmt.Errorf("a transaction of a script is an array of messages or {\"wrap\": ...}")
+	if o.Wrap == nil && o.Op == nil {
+		return fmt.Errorf("a transaction of a script is an array of messages, {\"wrap\": ...} or {\"op\": ...}")
 	}
-	t.Wrap = o.Wrap
+	t.Wrap, t.Op = o.Wrap, o.Op
 	return nil
 }
 
 // carried: the signed Ethereum messages of the transaction, in order.
 func (t sgTx) carried() []sgMsgSpec {
+	if t.Op != nil {
+		return nil
+	}
 	if t.Wrap == nil {
 		return t.Msgs
 	}
@@ -1752,6 +1779,94 @@ func sgGenCreates(in *sgInput) {
 	}
 }
 
+// sgGenOps writes the script of an "accountops" case: 2-3 accounts; a victim (sequence 0 in 60%) executes 2-4
+// transactions on random routes (Ethereum single / batch, also with a creation; Cosmos direct / amino / EIP-712
+// signed over explicit sequences); then 1-3 rounds of: an account-type operation against the victim by another
+// account (conversion into a vesting account, then merges or the conversion back), re-delivery of EVERY old
+// signed transaction of the victim (and some of the others) in random order, 1-2 fresh transactions.
+func sgGenOps(in *sgInput) {
+	r := NewRng(in.Seed ^ 0x6163636f70)
+	na := 2 + r.Intn(2)
+	sim := make([]uint64, na)
+	for i := range sim {
+		if !r.Chance(60) {
+			sim[i] = uint64(1 + r.Intn(3))
+		}
+	}
+	in.Seq0 = append([]uint64{}, sim...)
+	cosRoutes := []string{"cosmos-direct", "cosmos-amino", "eip712-ext", "eip712-key"}
+	olds := map[int][]sgTx{} // what every account has signed (and got executed) so far, one transaction each
+	submit := func(i int) {
+		if r.Chance(45) {
+			n := 1
+			if r.Chance(30) {
+				n = 2
+			}
+			tx := []sgMsgSpec{}
+			for q := 0; q < n; q++ {
+				sp := sgMsgSpec{From: i, Nonce: sim[i]}
+				if r.Chance(20) {
+					sp.Create = []string{"ok", "store", "fail"}[r.Intn(3)]
+				}
+				tx = append(tx, sp)
+				olds[i] = append(olds[i], sgTx{Msgs: []sgMsgSpec{sp}})
+				sim[i]++
+			}
+			in.Txs = append(in.Txs, sgTx{Msgs: tx})
+			if n > 1 {
+				olds[i] = append(olds[i], sgTx{Msgs: tx})
+			}
+			return
+		}
+		sq := sim[i]
+		t := sgTx{Wrap: &sgWrap{Route: cosRoutes[r.Intn(len(cosRoutes))], Signer: i, Inner: []sgInner{{}}, Seq: &sq}}
+		in.Txs = append(in.Txs, t)
+		olds[i] = append(olds[i], t)
+		sim[i]++
+	}
+	victim := r.Intn(na)
+	other := func() int { return (victim + 1 + r.Intn(na-1)) % na }
+	for q, n := 0, 2+r.Intn(3); q < n; q++ {
+		if r.Chance(25) {
+			submit(other())
+		} else {
+			submit(victim)
+		}
+	}
+	vesting := false
+	for round, n := 0, 1+r.Intn(3); round < n; round++ {
+		op := &sgOp{By: other(), Target: victim, Route: []string{"cosmos-direct", "cosmos-direct", "cosmos-amino", "eip712-ext"}[r.Intn(4)]}
+		switch {
+		case !vesting:
+			op.Kind, vesting = "into-vesting", true
+		case r.Bool():
+			op.Kind = "merge-vesting"
+		default:
+			op.Kind, op.By, vesting = "back", victim, false
+			sim[victim]++ // the vesting account signs the conversion back itself
+		}
+		if op.Kind != "back" {
+			sim[op.By]++
+		}
+		in.Txs = append(in.Txs, sgTx{Op: op})
+		again := append([]sgTx{}, olds[victim]...)
+		if o := other(); len(olds[o]) > 0 && r.Bool() {
+			again = append(again, olds[o][r.Intn(len(olds[o]))])
+		}
+		for k := len(again) - 1; k > 0; k-- {
+			j := r.Intn(k + 1)
+			again[k], again[j] = again[j], again[k]
+		}
+		in.Txs = append(in.Txs, again...)
+		for q, m := 0, 1+r.Intn(2); q < m; q++ {
+			submit(victim)
+		}
+	}
+	if n := len(in.Txs); n > 3 && r.Chance(50) {
+		in.Boundary = 1 + r.Intn(n-1)
+	}
+}
+
 func sgCoqOpt(x string) string {
 	if x == "None" {
 		return "None"
@@ -1901,6 +2016,8 @@ type sgSigned struct {
 func (w *sgWorld) runMulti(c *sgCase, in *sgInput) {
 	if len(in.Txs) == 0 {
 		switch {
+		case in.Kind == "accountops":
+			sgGenOps(in)
 		case in.Kind == "wrapped":
 			sgGenWrapped(in)
 		case in.Seed%5 < 2: // two multi cases in five: batches with contract creations and their re-deliveries
@@ -1918,6 +2035,14 @@ func (w *sgWorld) runMulti(c *sgCase, in *sgInput) {
 		}
 		if tx.Wrap != nil && tx.Wrap.Signer+1 > na {
 			na = tx.Wrap.Signer + 1
+		}
+		if tx.Op != nil {
+			if tx.Op.By+1 > na {
+				na = tx.Op.By + 1
+			}
+			if tx.Op.Target+1 > na {
+				na = tx.Op.Target + 1
+			}
 		}
 	}
 	for len(in.Seq0) < na {
@@ -2064,6 +2189,79 @@ func (w *sgWorld) runMulti(c *sgCase, in *sgInput) {
 		return execs, created, anyExec
 	}
 
+	// ---- an account-type operation between submissions
+	cosmosExec := map[string]int{}
+	opStep := func(t int, op *sgOp) {
+		what := fmt.Sprintf("tx%d", t)
+		if op.By < 0 || op.By >= len(accts) || op.Target < 0 || op.Target >= len(accts) {
+			c.tags["op:bad-script"] = true
+			return
+		}
+		by, tgt := accts[op.By], accts[op.Target]
+		signer := by
+		grant := sdk.NewCoins(sdk.NewCoin(utils.BaseDenom, sdkmath.NewInt(1000)))
+		periods := sdkvesting.Periods{{Length: 1, Amount: grant}}
+		var msg sdk.Msg
+		coqOp := ""
+		switch op.Kind {
+		case "into-vesting":
+			msg, coqOp = vestingtypes.NewMsgConvertIntoVestingAccount(by.Acc, tgt.Acc, ctx.BlockTime().Add(-time.Hour), periods, periods, false, false, nil), "OpConvertIntoVesting"
+		case "merge-vesting":
+			msg, coqOp = vestingtypes.NewMsgConvertIntoVestingAccount(by.Acc, tgt.Acc, ctx.BlockTime().Add(-time.Hour), periods, periods, true, false, nil), "OpMergeVesting"
+		case "back":
+			signer = tgt
+			msg, coqOp = vestingtypes.NewMsgConvertVestingAccount(tgt.Acc), "OpConvertBack"
+		default:
+			c.tags["op:bad-script"] = true
+			return
+		}
+		route := op.Route
+		if route == "" {
+			route = "cosmos-direct"
+		}
+		signerIdx, tgtIdx := c.intern(signer.Acc), c.intern(tgt.Acc)
+		seq := sgSeq(ctx, a, signer.Acc)
+		bz, d, err := w2.sgSignCosmosGas(ctx, route, signer, chainID, chainID, sgAccNum(ctx, a, signer.Acc), seq, []sdk.Msg{msg}, price, 800000)
+		if err != nil {
+			c.tags["op:unbuildable:"+op.Kind+":"+route] = true
+			return
+		}
+		signed := fmt.Sprintf("(Some (mk_doc %q %s %s %d%%N))", d.Chain, coqU64(d.AccNum), coqU64(d.Seq), c.body(d.BodyID))
+		desc := fmt.Sprintf("SCosmos %d%%N %s %s %d%%N", signerIdx, coqU64(seq), signed, c.body(d.BodyID))
+		if route == "eip712-ext" {
+			desc = fmt.Sprintf("SEip712 %d%%N %s %s %d%%N %d%%Z true", signerIdx, coqU64(seq), signed, c.body(d.BodyID), sgThisEIP155)
+		}
+		typeOf := func() string {
+			t := fmt.Sprintf("%T", a.AccountKeeper.GetAccount(ctx, tgt.Acc))
+			return t[strings.LastIndex(t, ".")+1:]
+		}
+		pre, typeBefore := c.snapshot(ctx, a), typeOf()
+		bctx, _ := ctx.CacheContext()
+		aerr := w2.sgRunAnte(bctx, bz)
+		class, modelled := sgErrClass(aerr)
+		res := a.DeliverTx(abci.RequestDeliverTx{Tx: bz})
+		post, typeAfter := c.snapshot(ctx, a), typeOf()
+		shape := fmt.Sprintf("%s of account%d (%s -> %s) by a %s transaction of account%d, code %d", op.Kind, op.Target, typeBefore, typeAfter, route, c.intern(signer.Acc), res.Code)
+		// the property: the sequence of an account never decreases (else what it signed before can be delivered again)
+		for i := range post {
+			if post[i] < pre[i] {
+				c.fail("%s (%s): the sequence of account %d went DOWN %d -> %d: every transaction it signed with a nonce from %d on can be delivered a second time",
+					what, shape, i, pre[i], post[i], post[i])
+			}
+		}
+		who := -1
+		if post[signerIdx] == pre[signerIdx]+1 {
+			who = signerIdx
+		}
+		log := res.Log
+		if len(log) > 140 {
+			log = log[:140]
+		}
+		h.Steps = append(h.Steps, sgSub{What: what + ":op:" + op.Kind, Class: class, Who: who, OtherOK: modelled, SeqBefore: pre, SeqAfter: post,
+			Deliver: fmt.Sprintf("code %d %s", res.Code, log), Wrapper: shape, coq: desc, op: fmt.Sprintf("%s %d%%N", coqOp, tgtIdx), seqs: post})
+		c.tags[fmt.Sprintf("op:%s:%s->%s:code%d", op.Kind, typeBefore, typeAfter, res.Code)] = true
+	}
+
 	// ---- a Cosmos transaction that carries signed Ethereum messages on a route that is not theirs
 	sink := sdk.AccAddress(NewRng(in.Seed ^ 0x73696e6b).Bytes(20))
 	ethURL := sdk.MsgTypeURL(&evmtypes.MsgEthereumTx{})
@@ -2147,6 +2345,10 @@ func (w *sgWorld) runMulti(c *sgCase, in *sgInput) {
 		gas := uint64(300000 + 400000*len(carried) + 60000*len(msgs))
 		if cosmosSigned {
 			seq := sgSeq(ctx, a, signer.Acc)
+			if wr.Seq != nil {
+				seq = *wr.Seq
+				c.tags["wrapped:explicit-sequence"] = true
+			}
 			accNum := sgAccNum(ctx, a, signer.Acc)
 			b, d, err := w2.sgSignCosmosGas(ctx, wr.Route, signer, chainID, chainID, accNum, seq, msgs, price, gas)
 			signed := "None"
@@ -2254,6 +2456,25 @@ func (w *sgWorld) runMulti(c *sgCase, in *sgInput) {
 			}
 			if who >= 0 {
 				c.nAccepted++
+				// the property for Cosmos / EIP-712 signed transactions: only at the signer's current sequence, at most once
+				id := hex.EncodeToString(bz)
+				cosmosExec[id]++
+				signedOver := pre[who]
+				if wr.Seq != nil {
+					signedOver = *wr.Seq
+				}
+				if signedOver != pre[who] {
+					c.fail("%s (%s): a Cosmos transaction signed over sequence %d was executed while the account's sequence was %d", what, shape, signedOver, pre[who])
+				}
+				if cosmosExec[id] > 1 {
+					c.fail("%s (%s): ONE signature, %d executions: the very same signed Cosmos transaction (signed over sequence %d) has now been executed %d times",
+						what, shape, cosmosExec[id], signedOver, cosmosExec[id])
+				}
+			}
+			for i := range post {
+				if post[i] < pre[i] {
+					c.fail("%s (%s): the sequence of account %d went DOWN %d -> %d", what, shape, i, pre[i], post[i])
+				}
 			}
 			h.Steps = append(h.Steps, sgSub{What: what + ":cosmos", Class: class, Who: who, OtherOK: modelled, SeqBefore: pre, SeqAfter: post,
 				Deliver: deliver, Wrapper: shape, coq: outer, seqs: post})
@@ -2380,6 +2601,10 @@ func (w *sgWorld) runMulti(c *sgCase, in *sgInput) {
 			a.BeginBlock(abci.RequestBeginBlock{Header: hdr})
 			ctx = a.BaseApp.NewContext(false, hdr)
 			c.tags["block-boundary"] = true
+		}
+		if txs.Op != nil {
+			opStep(t, txs.Op)
+			continue
 		}
 		if wr := txs.Wrap; wr != nil {
 			if !wr.isEthRoute() {
@@ -2599,7 +2824,7 @@ func sgRunCase(id string, in sgInput) Case {
 		e := forkEnv() // only to share the tx config / signer
 		c.tags["kind:blocks"] = true
 		sgWorldOf(e).runBlocks(c, r)
-	case "multi", "wrapped":
+	case "multi", "wrapped", "accountops":
 		e := forkEnv() // only to share the tx config / signer
 		c.tags["kind:"+in.Kind] = true
 		sgWorldOf(e).runMulti(c, &in)
@@ -2668,6 +2893,9 @@ func sigsDriver(cfg Config, out *Out) error {
 			in.Route = sgRoutes[(i-(i+3)/6-(i+0)/6)%len(sgRoutes)]
 			if i%12 == 4 { // ... of which one in eight gives way to a history with wrapped submissions
 				in.Kind, in.Route = "wrapped", ""
+			}
+			if i%12 == 10 { // ... and one in eight to a history with account-type operations and re-deliveries
+				in.Kind, in.Route = "accountops", ""
 			}
 		}
 		out.Emit(sgRunCase(fmt.Sprintf("s%d-%d", cfg.Seed, i), in))
